@@ -24,6 +24,9 @@ def all_handler_runs(ctx, fails):
                     if linked:
                         t.link("d/" + n, "d/second-" + n)
                 t.add_file("d/p.py", b"x = 1\n", mtime_ns=1_650_000_000_000_000_000)         # sibling source of p.pyc
+                # archives that are older than the epoch as files, with a member later than the epoch followed by members that are not
+                t.add_file("d/mixed.zip", samples.mixed_zip(), mtime_ns=(samples.EPOCH - 1000) * 10 ** 9)
+                t.add_file("d/mixed.jar", samples.mixed_zip(), mtime_ns=(samples.EPOCH - 1000) * 10 ** 9)
                 return t
             label = "--check --handler %s%s" % (sel, " (hard-linked files)" if linked else "")
             t = build()
